@@ -231,6 +231,18 @@ impl<B: SimField, H: ElementHasher<BaseField = B> + Send + Sync + 'static> Base 
                 }
             }
             r
+        } else if streamed && ch.chance("deliver.io_faults?", 1, 3) {
+            // the source itself fails while the proof is being read
+            let r = metered(|| parse_streamed_faulty(ch, ctx, data));
+            if let (Ok(Ok(p)), _) = &r {
+                // an I/O fault may make the parse fail; it must never yield ANOTHER proof than
+                // the bytes encode (counted, not asserted under C06: the statement is C13's)
+                match guard(|| Proof::from_bytes(data)) {
+                    Ok(Ok(q)) if q == *p => ctx.probe("streamed_parse_survived_io_faults_unchanged"),
+                    _ => ctx.probe("streamed_parse_differs_after_io_fault"),
+                }
+            }
+            r
         } else if streamed {
             metered(|| parse_streamed(ch, ctx, data))
         } else {
